@@ -20,7 +20,8 @@ GRSP = "pycoin/coins/groestlcoin/parse.py"
 INFEASIBLE = {
     ("*", "AssertionError", "pycoin.ecdsa.Curve.Curve.contains_point"): "Key.__init__ evaluates `None in pair` first (short-circuit or); all callers pass integer pairs",
     ("*", "AssertionError", "pycoin.encoding.sec.sec_to_public_pair"): "the generator argument is the per-network class attribute, never None",
-    ("*", "OverflowError", "pycoin.encoding.bytes32.to_bytes_32"): "the secret exponent was validated to be < order < 2^256 by Key.__init__ just before",
+    # keyed by the CALLER as well (caller>raiser): the reason holds for that call site only
+    ("*", "OverflowError", "pycoin.key.BIP32Node.BIP32Node.__init__>pycoin.encoding.bytes32.to_bytes_32"): "the secret exponent was validated to be < order < 2^256 by Key.__init__ just before",
     ("*", "TypeError", "pycoin.key.BIP32Node.BIP32Node.__init__"): "the chain code handed over by deserialize / from_master_secret is a bytes slice",
     ("*", "struct.error", "pycoin.key.BIP32Node.BIP32Node.deserialize"): "hparse only calls deserialize with exactly 78 bytes (guard checked by C18.3)",
     ("*", "TypeError", "pycoin.key.BIP32Node.BIP32Node.deserialize"): "hparse only calls deserialize with exactly 78 bytes (guard checked by C18.3)",
@@ -67,6 +68,9 @@ def c18_1(ctx):
         for e in escs:
             owner = attributed(ctx.p, e)        # code moved into a new helper keeps the disposition of the function it came from
             why = INFEASIBLE.get((m.name, e.exc, owner)) or INFEASIBLE.get(("*", e.exc, owner))
+            if why is None and len(e.via) >= 2:
+                site = "%s>%s" % (e.via[-2], owner)
+                why = INFEASIBLE.get((m.name, e.exc, site)) or INFEASIBLE.get(("*", e.exc, site))
             if why is None and m.name in ("public_key", "secret", "__call__", "private_key", "hierarchical_key", "payable", "address"):
                 # dispatchers call the per-kind parsers: accept what is tabulated for any of them
                 why = next((w for (ent, exc, fn), w in INFEASIBLE.items() if exc == e.exc and fn == owner), None)
@@ -316,6 +320,19 @@ def c18_6(ctx):
         ctx.check(not public_by_default or private_aware, "hd-private-text-form:%s" % cname, "%s:%d" % (rel, target.node.lineno),
                   "%s.as_text() of a node holding a secret is the PUBLIC text (as_text is %s with as_private=False): parse(t).as_text() parses back to a public-only node, not to an equal object" % (cname, target.name),
                   sample={"class": cname, "as_text": target.name})
+    # a key's text is written in the key's OWN compression form: the writers called by Key.as_text take no constant override
+    # (text of an uncompressed key that says `compressed` parses back to a key with another SEC, hash160 and address)
+    kt = ctx.func("pycoin/key/Key.py", "Key.as_text")
+    n_calls = 0
+    for cnode in ast.walk(sym.expanded(ctx, kt)):
+        if isinstance(cnode, ast.Call) and isinstance(cnode.func, ast.Attribute) and cnode.func.attr in ("wif", "sec_as_hex", "sec", "address", "hash160"):
+            n_calls += 1
+            forced = [k for k in cnode.keywords if k.arg in ("is_compressed", "use_uncompressed") and isinstance(k.value, ast.Constant) and k.value.value is not None] + \
+                     [a for a in cnode.args[:1] if isinstance(a, ast.Constant) and isinstance(a.value, bool)]
+            ctx.check(not forced, "key-text-own-compression", ctx.where(kt, cnode), "Key.as_text calls `%s`: the compression form is fixed, so the text of a key in the other form parses back to a different key (other SEC, hash160, address)"
+                      % norm(cnode)[:70], sample={"writer_call": norm(cnode)[:60]})
+    if n_calls == 0:
+        ctx.undecided("key-text-own-compression", ctx.where(kt), "Key.as_text calls none of wif / sec_as_hex / address")
     from rules import C02
     C02.c02_7(ctx)
 
